@@ -257,6 +257,29 @@ def real_part(ctx, quick):
             if alive:
                 problems.append((case, "every running command interrupted", "%d command(s) still running after pdsh has gone" % len(alive),
                                  "batch ^C did not take effect on %d running command(s) (%s); pdsh said %r" % (len(alive), name, er[-200:])))
+    # without -b: one interrupt typed at the terminal goes to the whole foreground process group of pdsh.  pdsh only lists
+    # the hosts; the commands must go on unharmed to their normal result
+    for rep in range(1 if quick else 4):
+        e = {"PATH": "/usr/bin:/bin", "HOME": "/root", "LANG": "C"}
+        p = subprocess.Popen([exe, "-R", "exec", "-f", "8", "-w", "a,b,c", "sh", "-c", "sleep 2; echo out-%h"], env=e,
+                             stdout=subprocess.PIPE, stderr=subprocess.PIPE, start_new_session=True)
+        time.sleep(0.7)
+        try:
+            os.killpg(p.pid, signal.SIGINT)
+        except OSError:
+            pass
+        nruns += 1
+        case = {"transport": "exec", "batch": False, "hosts": "a,b,c", "situation": "one interrupt sent to pdsh's process group (as a terminal does)"}
+        try:
+            o, er = p.communicate(timeout=20)
+        except subprocess.TimeoutExpired:
+            p.kill(); p.communicate()
+            problems.append((case, "normal end", "still running 20 s later", "pdsh does not end after a single ^C")); continue
+        lines = set(o.decode("latin-1").split("\n"))
+        lost = [h for h in "abc" if ("%s: out-%s" % (h, h)) not in lines]
+        if p.returncode != 0 or lost:
+            problems.append((case, "exit 0, output of a, b and c", "exit %s, output missing for %s" % (p.returncode, ",".join(lost) or "-"),
+                             "a single ^C without -b harmed the run: exit %s, no output from %s; pdsh said %r" % (p.returncode, ",".join(lost) or "-", er[-200:])))
     return nruns, problems
 
 
